@@ -371,7 +371,8 @@ def build_node(n, env, is_async=False):
                          multi_target=n.get("multi", False), name=n["name"], default_open=n.get("default_open", True),
                          emit=emit, wait_for=wait, cache=n.get("cache", False))
     if kind == "interrupt":
-        f = make_function(n, env, False)
+        # async_handler: the handler is an async function whose body takes part in the harness's scheduling like any node body
+        f = make_function(n, env, bool(is_async and n.get("async_handler")))
         out = tuple(outs) if len(outs) > 1 else outs[0]
         return InterruptNode(f, name=n["name"], output_name=out, emit=emit, wait_for=wait)
     if kind == "graph":
